@@ -3,7 +3,7 @@
    [ms] is one of the orders in which the Go code may put the stream [s] on the channel (map iterations are free);
    [client ms] is what a policy-sync client holds after applying [ms] in order. *)
 From Coq Require Import List Arith Bool Permutation.
-From Verif.C31 Require Import Model Spec Proofs Final Final2.
+From Verif.C31 Require Import Model Spec ListedOnce Proofs Final Final2 Oracle2.
 Import ListNotations.
 
 (* The Processor never panics on a history the calculation graph can produce. *)
@@ -68,6 +68,22 @@ Theorem c31_every_prefix : forall ops more, valid (ops ++ more) = true -> valid 
 Proof. exact valid_prefix. Qed.
 Print Assumptions c31_every_prefix.
 
+(* The specification oracle the correspondence run applies to the real Processor's output (Spec.ok_case: at every
+   operation, for every channel: referential integrity after every message, closed exactly when the workload left /
+   re-joined / was removed, nothing after the close, client = expected while connected) accepts EVERY observation that
+   agrees with the model on a valid history - for every admissible order inside the groups ([agrees] compares group
+   by group up to order). *)
+Theorem c31_model_meets_spec : forall c, valid (c_ops c) = true -> agrees c = true -> ok_case c = true.
+Proof. exact model_meets_spec. Qed.
+Print Assumptions c31_model_meets_spec.
+
+(* The contract's "an endpoint lists a policy once" is the readable condition Spec.listed_once (the tiers' policy sets
+   are pairwise disjoint and no tier repeats a policy in its ingress list - what the calculation graph guarantees, see
+   c03_grouped_by_tier); it implies that iteratePolicies visits no policy twice, which is what the Processor needs. *)
+Theorem c31_listed_once_visits_once : forall e, listed_once e = true -> has_dup (ep_pols e) = false.
+Proof. exact listed_once_nodup. Qed.
+Print Assumptions c31_listed_once_visits_once.
+
 (* Non-vacuity: a valid history with IP sets, a policy, a profile, two workloads, a re-join and a leave; workload 0
    is connected on its second channel, whose stream has unordered groups with more than one message. *)
 Definition ex_rules (v : nat) (a b : list id) : rules := mkRules v [[a; []; []; []; []; []; []; []; b]] [].
@@ -85,3 +101,16 @@ Example c31_example :
   /\ existsb (fun jc => existsb (fun g => Nat.ltb 1 (length (snd g))) (snd (snd jc))) (channels (fst (run ex_ops))) = true
   /\ length (channels (fst (run ex_ops))) = 3.
 Proof. vm_compute. repeat split. Qed.
+
+(* Non-vacuity of c31_model_meets_spec: the observation that sends every group in the model's own order agrees. *)
+Definition canon_case (ops : list op) : case :=
+  let st := fst (run ops) in
+  mkCase ops (snd (run ops))
+    (map (fun jw => match lookup (fst jw) (channels st) with
+                    | Some (_, cl, s) => mkCh (fst (snd jw)) (snd (snd jw)) cl
+                                              (map (fun k => (k, concat (groups_at k s))) (seq 0 (length ops)))
+                    | None => mkCh (fst (snd jw)) (snd (snd jw)) None []
+                    end)
+         (combine (seq 0 (length (joins_of ops))) (joins_of ops))).
+Example c31_example_agrees : check_case (canon_case ex_ops) = (true, true).
+Proof. vm_compute. reflexivity. Qed.
